@@ -73,9 +73,10 @@ func Run(p *load.Program, tier string) *oblig.Set {
 }
 
 type ruler struct {
-	m   *Model
-	s   *oblig.Set
-	pos string
+	m       *Model
+	s       *oblig.Set
+	pos     string
+	seen13d bool
 }
 
 func (r *ruler) key(op, what string) string { return "vm.Run / " + op + " / " + what }
@@ -541,7 +542,34 @@ func (r *ruler) v6() {
 		}
 		var got []string
 		for _, e := range ps {
-			got = append(got, e.Args[0]+"<-"+e.Args[1])
+			v := e.Args[1]
+			if strings.HasPrefix(v, "SetFrame(V0,") {
+				v = "V0" // the same value, detached from the yielding stack (V13c)
+			}
+			got = append(got, e.Args[0]+"<-"+v)
+		}
+		// V13c: a function value that leaves its generator is detached from the
+		// generator's stack, which is recycled once the loop is over
+		if par(pa) {
+			k13 := r.key("YIELD", "a yielded function is detached from the generator's stack: "+strings.Join(pa.Conds[1:min(2, len(pa.Conds))], ", "))
+			isFn := len(condsWith(pa, "ToFunction.1")) == 1 && strings.HasSuffix(condsWith(pa, "ToFunction.1")[0], ":= true")
+			hasFrame := len(condsWith(pa, "==(.Frame(")) == 1 && strings.HasSuffix(condsWith(pa, "==(.Frame(")[0], ":= false")
+			cl := events(pa, "call", "slices.Clone")
+			sf := events(pa, "call", "SetFrame")
+			switch {
+			case len(condsWith(pa, "ToFunction.1")) == 0:
+				r.s.Bad("V13c", k13, r.ppos(pa), "the value handed to the consuming loop is not examined: a function value created inside a generator captures a slice of the generator context's stack; when the loop is over that stack is recycled by the next loop and the captured variables of the function change under it (RET detaches returned functions, YIELD must do the same)", pa.Describe()...)
+			case isFn && hasFrame:
+				good := len(cl) == 1 && strings.HasPrefix(cl[0].Args[0], "deref(.Frame(ToFunction.0") && len(sf) == 1 && len(ps) > 0 && strings.HasPrefix(ps[len(ps)-1].Args[1], "SetFrame(")
+				if good {
+					if p, ok := sf[0].Vals[1].(*absint.Ptr); !ok || absint.Key(p.Cell.V) != cl[0].Res {
+						good = false
+					}
+				}
+				r.okIf("V13c", k13, pa, good, "the parent receives the function with a private copy of its captured frame", "a yielded function with a captured frame must be handed on with a private copy of that frame (slices.Clone(*f.Frame) + SetFrame)")
+			default:
+				r.okIf("V13c", k13, pa, len(cl) == 0 && len(sf) == 0, "nothing to detach", "only function values with a frame are re-pointed")
+			}
 		}
 		if strings.Join(got, ";") == strings.Join(want, ";") {
 			r.s.OK("V8", key, r.ppos(pa), "pushes: "+strings.Join(got, "; "))
@@ -700,6 +728,24 @@ func (r *ruler) v7() {
 				}
 				if ci < 0 || pi < 0 || ci > pi {
 					good = false
+				}
+			}
+			if good && !top {
+				// V13d: the copy is shallow: a function value stored in the captured
+				// frame (a closure that calls a sibling closure) still points at the
+				// frame that is popped
+				k13d := "vm.Run / RET / detaches closures nested in the captured frame"
+				walks := false
+				for _, e := range pa.Events {
+					if e.Kind == "call" && (strings.Contains(e.Fn, "detach") || strings.Contains(e.Fn, "Detach")) {
+						walks = true
+					}
+				}
+				if len(events(pa, "call", ".ToFunction")) > 1 || walks {
+					r.s.OK("V13d", k13d, r.ppos(pa), "the elements of the copied frame are examined for function values")
+				} else if !r.seen13d {
+					r.seen13d = true
+					r.s.Bad("V13d", k13d, r.ppos(pa), "the private copy of the captured frame is shallow (slices.Clone): a function value held in one of its slots - a closure that calls a sibling closure defined in the same function - keeps its own pointer to the frame that is being popped, and reads whatever later calls leave there", pa.Describe()...)
 				}
 			}
 			if good {
